@@ -48,8 +48,8 @@ PROPS["C04"] = dict(
 )
 
 PROPS["C06"] = dict(
-    groups=[],
-    lean_props=["SeaQ.Props.C06"],
+    groups=["token", "escape", "quote"],
+    lean_props=["SeaQ.Props.C06", "SeaQ.Props.C06Stmt"],
     lean_obligations=[],
     technique="Lean 4 proof (mutual structural induction over condition trees, list induction over call histories, Kleene-logic case analysis) over a hand-written model of Condition::add/not/add_option/to_simple_expr and ConditionHolder::add_condition; model tied by comparing the parse tree of the rendered predicate with the model's expression on bounded-exhaustive and random histories; 3-valued truth-table oracle on the real crate",
     level_text="Machine-checked proof, for every condition tree (any depth/width, every negate flag, empty groups, optional members) and every history of condition-adding calls, that what the holder renders is equivalent under SQL three-valued logic to the AND of the supplied conditions (any = OR, empty any = FALSE, all = AND, empty all = TRUE, negated = NOT), and that no predicate is rendered iff no condition was given. Every rewrite the builder performs while adding (single-member unwrapping, all+all merging, wrapping) is inside the theorem.",
